@@ -185,7 +185,9 @@ fn grid<T: Tier + Dom<M = Sh>, V: Inner<T, N>, const N: usize>(rep: &mut Report,
     let r: i64 = if rep.quick() { if N >= 3 { 2 } else { 3 } } else { 3 };
     let side = (2 * r + 1) as usize;
     let dims: Vec<usize> = vec![side; 2 * N];
-    let scales: Vec<f64> = if rep.quick() { vec![1.0] } else { vec![1.0, 1e-3, 1e3] };
+    // the last scale makes every vector shorter than the type's machine epsilon (but far from underflow)
+    let tiny = if T::NAME == "F" { 2f64.powi(-30) } else { 2f64.powi(-70) };
+    let scales: Vec<f64> = if rep.quick() { vec![1.0, tiny] } else { vec![1.0, 1e-3, 1e3, tiny] };
     let n1 = alphabet::product_len(&dims);
     rep.cases(
         &format!("grid/{}", V::NAME),
